@@ -1959,7 +1959,7 @@ class Circuit(AbstractCircuit):
 
     def _parameter_names_(self) -> Set[str]:
         if self._parameter_names is None:
-            self._parameter_names = super()._parameter_names_()
+            self._parameter_names = frozenset(super()._parameter_names_())
         return self._parameter_names
 
     def copy(self) -> Circuit:
